@@ -9,7 +9,7 @@ open HW.Proc
 /-- containment: no panic propagates out of the process, whatever the script and history. -/
 theorem contained (max mw : Nat) (script : List Outcome) (batches : List (List Msg)) :
     (runHistory max mw script batches).2 = none :=
-  runHistory_no_escape max mw script batches
+  Shape.runHistory_no_escape max mw script batches
 
 /-- replay: over all incarnations the user messages received are a prefix of the history — each at
     most once, in the original order, with its own sender; the message that caused a panic is not
@@ -29,7 +29,7 @@ theorem replay_complete_if_alive (max mw : Nat) (script : List Outcome) (batches
 /-- restart events carry the incremented count: they are numbered 1, 2, 3, … -/
 theorem restart_events_numbered (max mw : Nat) (script : List Outcome) (batches : List (List Msg)) :
     restartsOK max (runHistory max mw script batches).1.trace = true :=
-  restarts_ok max mw script batches
+  Shape.restarts_ok max mw script batches
 
 /-- non-vacuity: a panic on the 2nd of 4 messages: Stopped to the old incarnation, restart event 1,
     new incarnation initialised, then exactly messages 3 and 4. -/
